@@ -1535,7 +1535,10 @@ func (x *Exec) havocLoop(st *State, fr *Frame, hdr *ssa.BasicBlock) {
 					continue
 				}
 				pre := st.heapGet(n, ms.sorts[n])
-				whole := false
+				// channel state (length, closedness) cannot be named in an assigns clause and is not part of the frame
+				// check, so it must not be part of the frame assumption either: what the loop needs about its channels
+				// has to be in the invariant
+				whole := strings.HasPrefix(n, "Ch")
 				var refs []*T
 				for _, l := range lf.locs {
 					for _, a := range l.Arrays {
